@@ -143,6 +143,17 @@ var c13BuilderModelB = ref.ToProto(&ref.Model{Schema: "1.1", Types: []ref.TypeDe
 	}},
 }})
 
+func modOp(name, text string) c13Op {
+	return c13Op{name, func() string {
+		m, err := transformer.TransformModFile(text)
+		if err != nil {
+			return errStr(err)
+		}
+		render := func() string { return fmt.Sprintf("%+v", *m) }
+		return c13Keep(render(), render)
+	}}
+}
+
 // c13Ops builds the call alphabet over the given shared inputs.
 func c13Ops(shared, graphM *openfgav1.AuthorizationModel) []c13Op {
 	c13Failing(shared) // built before any thread runs
@@ -236,6 +247,12 @@ func c13Ops(shared, graphM *openfgav1.AuthorizationModel) []c13Op {
 			}
 			return g.GetDOT()
 		}},
+		// fga.mod manifests: complete, lacking a field, and one that the YAML decoder rejects only after it has filled the fields
+		// (what a rejected call leaves behind must not complete a later, incomplete document)
+		modOp("modfile-valid", "schema: '1.2'\ncontents:\n  - a.fga\n  - b/c.fga\n"),
+		modOp("modfile-missing-contents", "schema: '1.2'\n"),
+		modOp("modfile-missing-schema", "contents:\n  - only.fga\n"),
+		modOp("modfile-yaml-error-after-fields", "schema: '1.2'\ncontents:\n  - stale/one.fga\n  - stale/two.fga\n<<: oops\n"),
 		{"validators+utils", func() string {
 			var sb strings.Builder
 			for _, s := range []string{"doc:1", "group:eng#member", "user:*", "bad id", "doc:1#viewer"} {
